@@ -306,3 +306,6 @@ func DoneChan(d int64) <-chan struct{}  { panic("zzvp: model channels are symbol
 
 // SameRef reports whether two maps / slices / pointers are the very same object.
 func SameRef(a, b any) bool { panic("zzvp: symbolic only") }
+
+// FreezeGlobals makes the repository's package-level variables read-only (symbolic only).
+func FreezeGlobals() {}
